@@ -21,6 +21,10 @@ def freeze_harness():
     ENV["VERIF_HARNESS_DIR"] = snap
     atexit.register(lambda: shutil.rmtree(snap, ignore_errors=True))
 PROPS = ["C%02d" % i for i in range(1, 20)]
+# VERIF_EQUIV_PROPS=C01,C06 restricts a run to some properties (results are merged into the stored result.json)
+SUBSET = [p for p in os.environ.get("VERIF_EQUIV_PROPS", "").split(",") if p]
+if SUBSET:
+    PROPS = SUBSET
 
 
 def sh(cmd, cwd, env=ENV, timeout=7200):
@@ -54,6 +58,11 @@ def run(name):
                         os.remove(rp)
     finally:
         sh("git worktree remove --force %s; git worktree prune" % wt, "/repo")
+    if SUBSET and os.path.exists(os.path.join(d, "result.json")):
+        prev = json.load(open(os.path.join(d, "result.json")))
+        merged = dict(prev.get("checks", {}))
+        merged.update(res["checks"])
+        res["checks"] = merged
     res["alarms"] = [p for p, r in res["checks"].items() if r["exit"] != 0]
     json.dump(res, open(os.path.join(d, "result.json"), "w"), indent=1)
     print(name, "alarms:", res["alarms"], flush=True)
